@@ -1,0 +1,40 @@
+//go:build verif
+
+// Verification hooks: aliases for unexported strategies so that an external
+// harness can compare each of them with its formal model.  Compiled only
+// with -tags verif; adds no code to normal builds.
+
+package strcase
+
+var (
+	VerifBruteForceIndexUnicode   = bruteForceIndexUnicode
+	VerifIndexRabinKarpUnicode    = indexRabinKarpUnicode
+	VerifIndexRabinKarpRevUnicode = indexRabinKarpRevUnicode
+	VerifHasPrefixUnicode         = hasPrefixUnicode
+	VerifHasSuffixUnicode         = hasSuffixUnicode
+	VerifIndexRuneCase            = indexRuneCase
+	VerifIndexRune                = indexRune
+	VerifIndexRune2               = indexRune2
+	VerifLastIndexRune            = lastIndexRune
+	VerifIndexByte                = indexByte
+	VerifNonLetterASCII           = nonLetterASCII
+	VerifHashStrUnicode           = hashStrUnicode
+	VerifHashStrRevUnicode        = hashStrRevUnicode
+	VerifCountRune                = countRune
+	VerifContainsKelvin           = containsKelvin
+)
+
+// VerifMakeASCIISet exposes makeASCIISet with the set as a plain array.
+func VerifMakeASCIISet(s, chars string) ([8]uint32, bool) {
+	as, ok := makeASCIISet(s, chars)
+	return [8]uint32(as), ok
+}
+
+// VerifLower is a copy of the _lower table.
+func VerifLower() [256]byte { return _lower }
+
+const (
+	VerifMaxBruteForce = maxBruteForce
+	VerifMaxLen        = maxLen
+	VerifPrimeRK       = primeRK
+)
